@@ -634,3 +634,119 @@ def sink_let_if(node):
         out.append(s_)
         i += 1
     return {**node, "stmts": out}
+
+
+# --------------------------------------------------------------------------- guard clauses -> if/else (normal form)
+
+UNGUARD_COUNT = [0]
+
+
+def _ends_with(block, kind):
+    st = block.get("stmts") or []
+    if not st or st[-1]["t"] != "ExprStmt":
+        return None
+    e = st[-1]["expr"]
+    if isinstance(e, dict) and e.get("t") == kind and (kind != "Continue" or e.get("label") is None):
+        return e
+    return None
+
+
+def _has_kind_shallow(node, kinds):
+    """does node contain one of `kinds` outside nested closures / fns (and, for Continue/Break, outside nested loops)?"""
+    stack = [node]
+    while stack:
+        n = stack.pop()
+        if isinstance(n, dict):
+            if n.get("t") in kinds:
+                return True
+            if n.get("t") in ("Closure", "Fn"):
+                continue
+            stack.extend(v for v in n.values() if isinstance(v, (dict, list)))
+        elif isinstance(n, list):
+            stack.extend(n)
+    return False
+
+
+def _unguard_block(block, exit_kind):
+    """exit_kind: 'Return' (block is in tail position of a function) or 'Continue' (block is a loop body)."""
+    st = list(block["stmts"])
+    # a trailing `return X;` of a function body is its tail value
+    if exit_kind == "Return" and st and st[-1]["t"] == "ExprStmt" and isinstance(st[-1]["expr"], dict) and st[-1]["expr"].get("t") == "Return":
+        r = st[-1]["expr"]
+        UNGUARD_COUNT[0] += 1
+        st = st[:-1] + ([{"t": "ExprStmt", "sp": r["sp"], "expr": r["expr"], "semi": False}] if r.get("expr") is not None else [])
+    for i, s_ in enumerate(st):
+        # if c { pre; return X; }  REST      ->   if c { pre; X } else { REST }
+        if s_["t"] == "ExprStmt" and isinstance(s_["expr"], dict) and s_["expr"].get("t") == "If" and s_["expr"].get("else") is None:
+            iff = s_["expr"]
+            ex = _ends_with(iff["then"], exit_kind)
+            if ex is not None and i + 1 <= len(st):
+                pre = iff["then"]["stmts"][:-1]
+                if _has_kind_shallow(pre, ("Return", "Continue", "Break") if exit_kind == "Continue" else ("Return",)):
+                    continue
+                val = ex.get("expr") if exit_kind == "Return" else None
+                then_st = pre + ([{"t": "ExprStmt", "sp": val["sp"], "expr": val, "semi": False}] if val is not None else [])
+                rest = _unguard_block({"t": "Block", "sp": block["sp"], "stmts": st[i + 1:]}, exit_kind)
+                new_if = {**iff, "then": {**iff["then"], "stmts": then_st},
+                          "else": {"t": "BlockExpr", "sp": block["sp"], "label": None, "block": rest}}
+                UNGUARD_COUNT[0] += 1
+                return {**block, "stmts": st[:i] + [{"t": "ExprStmt", "sp": s_["sp"], "expr": new_if, "semi": False}]}
+        # let PAT = e else { return X };  REST   ->   if let PAT = e { REST } else { X }
+        if s_["t"] == "Local" and s_.get("else") is not None and s_.get("init") is not None:
+            eb = s_["else"]
+            ebk = eb["block"] if isinstance(eb, dict) and eb.get("t") == "BlockExpr" else (eb if isinstance(eb, dict) and eb.get("t") == "Block" else None)
+            ex = _ends_with(ebk, exit_kind) if ebk else None
+            if ex is not None and len(ebk["stmts"]) >= 1:
+                pre = ebk["stmts"][:-1]
+                val = ex.get("expr") if exit_kind == "Return" else None
+                else_st = pre + ([{"t": "ExprStmt", "sp": val["sp"], "expr": val, "semi": False}] if val is not None else [])
+                rest = _unguard_block({"t": "Block", "sp": block["sp"], "stmts": st[i + 1:]}, exit_kind)
+                cond = {"t": "Let", "sp": s_["sp"], "pat": s_["pat"], "expr": s_["init"]}
+                new_if = {"t": "If", "sp": s_["sp"], "cond": cond, "then": rest,
+                          "else": {"t": "BlockExpr", "sp": s_["sp"], "label": None, "block": {"t": "Block", "sp": s_["sp"], "stmts": else_st}}}
+                UNGUARD_COUNT[0] += 1
+                return {**block, "stmts": st[:i] + [{"t": "ExprStmt", "sp": s_["sp"], "expr": new_if, "semi": False}]}
+    # tail expression: recurse into its branches (they are in tail position too)
+    if st and st[-1]["t"] == "ExprStmt" and not st[-1]["semi"] and exit_kind == "Return":
+        st = st[:-1] + [{**st[-1], "expr": _unguard_tail(st[-1]["expr"])}]
+    return {**block, "stmts": st}
+
+
+def _unguard_tail(e):
+    if not isinstance(e, dict):
+        return e
+    t = e.get("t")
+    if t == "If":
+        out = {**e, "then": _unguard_block(e["then"], "Return")}
+        if e.get("else") is not None:
+            el = e["else"]
+            out["else"] = {**el, "block": _unguard_block(el["block"], "Return")} if el.get("t") == "BlockExpr" else _unguard_tail(el)
+        return out
+    if t in ("BlockExpr", "Unsafe"):
+        return {**e, "block": _unguard_block(e["block"], "Return")}
+    if t == "Match":
+        return {**e, "arms": [{**a, "body": _unguard_tail(a["body"])} for a in e["arms"]]}
+    return e
+
+
+def unguard_fn(fn):
+    """Guard clauses of a function written as if/else: `if c { return X; } REST` -> `if c { X } else { REST }`, `let P = e else { return X }; REST`
+    -> `if let P = e { REST } else { X }`, a trailing `return X;` -> `X`; the same with `continue` for loop bodies.  Behaviour-preserving."""
+    body = fn.get("body")
+    if body is None:
+        return body
+    nb = _unguard_block(body, "Return")
+    return _unguard_loops(nb)
+
+
+def _unguard_loops(node):
+    if isinstance(node, list):
+        return [_unguard_loops(x) for x in node]
+    if not isinstance(node, dict):
+        return node
+    if node.get("t") in ("Closure",):
+        return node
+    out = {k: (_unguard_loops(v) if isinstance(v, (dict, list)) else v) for k, v in node.items()}
+    if out.get("t") in ("While", "ForLoop", "Loop") and isinstance(out.get("body"), dict):
+        out["body"] = _unguard_block(out["body"], "Continue")
+    return out
